@@ -1,6 +1,6 @@
 (* C10: what today's code does NOT satisfy. Witnesses are closed by vm_compute. *)
 From Coq Require Import NArith List Bool.
-From OG Require Import C10.Model C10.Regex C10.RegexSearch.
+From OG Require Import C10.Model C10.Regex C10.RegexSearch C10.Prune.
 Import ListNotations.
 Open Scope N_scope.
 
@@ -116,3 +116,11 @@ Proof.
   vm_compute. discriminate.
 Qed.
 Print Assumptions C10_current_refuted_prune_reading.
+
+(* A variant of the key evaluator that lets only k = '' hold on a series without tag k (a realistic "simplification") is not
+   the predicate: b != 'y' holds on a series without b. Kept as a witness that theorem C10_prune_atom_is_eval is not vacuous
+   about absent tags; it is NOT today's code. *)
+Theorem C10_prune_variant_refuted :
+  exists am f ts, prune_atom_absent_only_empty am f ts <> eval am (atom_of f) ts.
+Proof. exists (fun _ _ => false), (2, Neq, 7), [(1, 1)]. vm_compute. discriminate. Qed.
+Print Assumptions C10_prune_variant_refuted.
